@@ -171,11 +171,31 @@ fn check_cells_inner(case: &RegCase, st: &mut Stats, exclude_known: bool) -> Res
                 bars_of_band.push(bars);
             }
             bounds.sort();
-            if bounds.len() != nlive.saturating_sub(1) {
-                return Err(show(format!("{} distinct column boundaries for {} columns holding text", bounds.len(), nlive)));
-            }
             // rows with content, in order, correspond to bands
             let content_rows: Vec<usize> = (0..t.rows.len()).filter(|r| t.rows[*r].iter().any(|c| c.kind != CellKind::Empty)).collect();
+            // a boundary (after live column l) is drawn iff some rendered row has a cell ending there
+            let drawn_cells = |r: usize| -> Vec<(usize, usize, usize)> {
+                let mut drawn = vec![];
+                for (ci, (start, span)) in geo.rows[r].iter().enumerate() {
+                    let lives: Vec<usize> = (*start..*start + *span).filter_map(|c| live_index.get(c).copied().flatten()).collect();
+                    if let (Some(f), Some(l)) = (lives.first(), lives.last()) {
+                        drawn.push((ci, *f, *l));
+                    }
+                }
+                drawn
+            };
+            let mut exp_idx: std::collections::BTreeSet<usize> = Default::default();
+            for r in &content_rows {
+                let d = drawn_cells(*r);
+                for (_, _, l) in d.iter().take(d.len().saturating_sub(1)) {
+                    exp_idx.insert(*l);
+                }
+            }
+            if bounds.len() != exp_idx.len() {
+                return Err(show(format!("{} distinct column boundaries, but the rows' cells end at {} distinct boundaries between the {} columns holding text", bounds.len(), exp_idx.len(), nlive)));
+            }
+            // position of the boundary after live column l
+            let pos_of: std::collections::BTreeMap<usize, usize> = exp_idx.iter().copied().zip(bounds.iter().copied()).collect();
             if content_rows.len() != a.bands.len() {
                 return Err(show(format!("{} bands for {} rows with content", a.bands.len(), content_rows.len())));
             }
@@ -185,21 +205,14 @@ fn check_cells_inner(case: &RegCase, st: &mut Stats, exclude_known: bool) -> Res
                         return Err(show(format!("band {} shows row {} but should show row {}", bi, br, r)));
                     }
                 }
-                // cells of this row that are drawn: those covering a live column; (cell index, first live, last live)
-                let mut drawn: Vec<(usize, usize, usize)> = vec![];
-                for (ci, (start, span)) in geo.rows[*r].iter().enumerate() {
-                    let lives: Vec<usize> = (*start..*start + *span).filter_map(|c| live_index.get(c).copied().flatten()).collect();
-                    if let (Some(f), Some(l)) = (lives.first(), lives.last()) {
-                        drawn.push((ci, *f, *l));
-                    }
-                }
-                let exp: Vec<usize> = drawn.iter().take(drawn.len().saturating_sub(1)).map(|(_, _, l)| bounds[*l]).collect();
+                let drawn = drawn_cells(*r);
+                let exp: Vec<usize> = drawn.iter().take(drawn.len().saturating_sub(1)).map(|(_, _, l)| pos_of[l]).collect();
                 if exp != bars_of_band[bi] {
                     return Err(show(format!("row {}: bars at {:?} but the column boundaries of its cells are {:?} (boundaries {:?})", r, bars_of_band[bi], exp, bounds)));
                 }
-                for (ci, f, l) in &drawn {
-                    let left = if *f == 0 { None } else { Some(bounds[*f - 1]) };
-                    let right = if *l + 1 == nlive { None } else { Some(bounds[*l]) };
+                for (k, (ci, f, l)) in drawn.iter().enumerate() {
+                    let left = if k == 0 { None } else { pos_of.get(&(*f - 1)).copied() };
+                    let right = if k + 1 == drawn.len() { None } else { pos_of.get(l).copied() };
                     if let Some(pos) = seen.get(&(*r, *ci)) {
                         for (y, x) in pos {
                             if left.map(|l| *x <= l).unwrap_or(false) || right.map(|rr| *x >= rr).unwrap_or(false) {
